@@ -213,6 +213,10 @@ func runSeg(vm *ds.Context, src string) outcome {
 // order is Go map order; two texts that contain a dict rendering and are byte
 // permutations of each other are taken to be the same text.
 func sameModuloDictOrder(a, b string) bool {
+	// since fix 6269628 a dict prints and lists its entries in key order: nothing is tolerated any more
+	if true {
+		return false
+	}
 	if len(a) != len(b) || !strings.Contains(a, "{") {
 		return false
 	}
